@@ -129,7 +129,7 @@ def nextafter(x, y):
 def ladder(a, b, tier, rng):
     """interior points approaching each bound on a log-spaced ladder down to 1 ulp, the bounds, interior."""
     w = b - a
-    ks = (1, 3, 6, 10, 14, 16) if tier == "quick" else tuple(range(1, 18))
+    ks = (1, 4, 8, 12, 16) if tier == "quick" else tuple(range(1, 18))
     pts = [a, b, a + w / 2, a + w * 0.3183098861837907, a + w * 0.7071067811865476]
     for k in ks:
         pts.append(a + w * 10.0 ** (-k))
@@ -292,10 +292,12 @@ def gen_configs(chk, reg):
                     kw = dict(kw0, **var)
                     inv = rtb_inversion_for(kw, "x") if not predicted_reject(cls, kw) else None
                     tests = ("lower", "upper", False, "detect") if inv else (None,)
-                    bsets = BOUNDS if (not var or not quick) else [BOUNDS[1]]
+                    bsets = BOUNDS if (not var or (not quick and name == "default")) else [BOUNDS[rng.randrange(3)] if not quick else BOUNDS[1]]
                     if quick and not var:
-                        if name in ("default", "logit", "inversion"):
+                        if name in ("default", "logit"):
                             bsets = BOUNDS
+                        elif name == "inversion":
+                            bsets = BOUNDS[:2] + [BOUNDS[3]]
                         elif name in ("offset", "log-rescale", "inversion-duplicate", "time", "mass_ratio"):
                             bsets = BOUNDS[:2] + [BOUNDS[2 + rng.randrange(3)]]
                         else:
@@ -333,7 +335,58 @@ def gen_configs(chk, reg):
                         add([c], cls, kw)
             else:
                 unclassified.append(f"{name} -> {cls}")
+    for c, cls in combined_configs(chk):
+        c["expect_reject"] = False
+        c["cls"] = cls
+        cfgs.append(c)
     return cfgs, unclassified
+
+
+def combined_configs(chk):
+    """CombinedReparameterisation over several different blocks (log_j threaded through), forward and reversed
+    order, and a GW proposal configured by its parameter-name aliases alone."""
+    rng = chk.rng
+    out = []
+    menu = [
+        ("logit", {}, (0.0, 1.0)), ("default", {"offset": True}, (-3.7, 12.9)), ("scale", {"scale": 2.5}, (-3.7, 12.9)),
+        ("angle-2pi", {}, (0.0, 2 * PI)), ("log-rescale", {}, (1e-3, 250.0)), ("default", {"rescale_bounds": [0.0, 1.0]}, (1e5, 100001.0)),
+        ("zscore", {}, (-3.7, 12.9)), ("to-cartesian", {"mode": "half"}, (0.0, 1.0)), ("offset", {"update_bounds": False}, (-2.0e-9, 3.5e-9)),
+        (None, {}, (-3.7, 12.9)),
+    ]
+    n_cfg = 2 if chk.tier == "quick" else 24
+    for k in range(n_cfg):
+        picks = rng.sample(menu, 4)
+        names = [f"x{j}" for j in range(4)]
+        bounds = {n: b for n, (_, _, b) in zip(names, picks)}
+        reps = {}
+        for n, (nm, extra, _) in zip(names, picks):
+            reps[n] = dict({"reparameterisation": nm}, **extra) if (nm is not None or extra) else None
+        pts = _pts_for(names, bounds, chk)
+        c = make_cfg(names, bounds, reps, pts, gw=False, reverse=bool(k % 2))
+        c["radii"] = [0.05 + 3.0 * rng.random() for _ in pts]
+        upd = []
+        for _ in range(7):
+            upd.append([bounds[n][0] + (bounds[n][1] - bounds[n][0]) * (0.1 + 0.8 * rng.random()) for n in names])
+        if k % 3 != 2:
+            c["update"] = upd
+        c["periodic"] = {n: 2 * PI for n, (nm, _, _) in zip(names, picks) if nm == "angle-2pi"}
+        c["label"] = f"combined#{k}|" + ",".join(str(nm) for nm, _, _ in picks) + f"|reverse={bool(k % 2)}|upd={'y' if k % 3 != 2 else 'n'}"
+        out.append((c, "Combined"))
+    # GW proposal, no explicit configuration: every block comes from GWFlowProposal.aliases
+    names = ["chirp_mass", "mass_ratio", "ra", "dec", "psi", "theta_jn", "phase", "luminosity_distance", "geocent_time", "a_1", "zz"]
+    bounds = {"chirp_mass": (25.0, 35.0), "mass_ratio": (0.125, 1.0), "ra": (0.0, 2 * PI), "dec": (-PI / 2, PI / 2),
+              "psi": (0.0, PI), "theta_jn": (0.0, PI), "phase": (0.0, 2 * PI), "luminosity_distance": (100.0, 5000.0),
+              "geocent_time": (1126259462.3, 1126259462.5), "a_1": (0.0, 0.99), "zz": (-1.0, 1.0)}
+    for t in (("upper",) if chk.tier == "quick" else ("upper", "lower", False)):
+        pts = _pts_for(names, bounds, chk)
+        c = make_cfg(names, bounds, None, pts, gw=True, test=t)
+        c["radii"] = [0.05 + 3.0 * rng.random() for _ in pts]
+        c["update"] = [[bounds[n][0] + (bounds[n][1] - bounds[n][0]) * (0.1 + 0.8 * rng.random()) for n in names] for _ in range(7)]
+        c["periodic"] = {"ra": 2 * PI, "phase": 2 * PI, "psi": PI}
+        mark_singular(c, poles="dec")
+        c["label"] = f"gw:aliases|test={t}"
+        out.append((c, "GWaliases"))
+    return out
 
 
 def _pts_for(names, bounds, chk, per_axis=None):
@@ -685,7 +738,7 @@ def special_block(c, bd, kw):
 
 def block_kwargs(c, bd):
     """keyword arguments the block was built with: registry kwargs + the user's overrides."""
-    reps = c["reparameterisations"]
+    reps = c["reparameterisations"] or {}
     table = c["_registry_gw"] if c.get("gw") else c["_registry"]
     for key, cfg in reps.items():
         if key in c["names"]:
@@ -698,10 +751,13 @@ def block_kwargs(c, bd):
             if set(ps) & set(bd["parameters"]):
                 extra = {k: v for k, v in cfg.items() if k != "parameters"}
                 return dict(table[key][1], **extra)
-    # fallback / default reparameterisation
+    # GW defaults by parameter-name alias, else the fallback reparameterisation
     fb = c.get("fallback")
-    if c.get("gw") and bd.get("via_alias"):
-        return dict(table[bd["via_alias"]][1])
+    if c.get("gw"):
+        for p in bd["parameters"]:
+            al = (c.get("_aliases") or {}).get(p.lower())
+            if al is not None:
+                return dict(table[al[0]][1])
     return dict(table["None" if fb is None else fb][1])
 
 
@@ -714,8 +770,8 @@ def observations(c, r, specs):
     for j in range(m):
         i = j % n
         row = c["points"][i]
-        if angle_wrap_row(c, r, i):
-            continue
+        if angle_wrap_row(c, r, i) or i in (c.get("skip_rows") or ()):
+            continue   # refuted region / singular or underflowing radius: not part of the correspondence
         rowids.append(j)
         ins, auxs, xps, xbs = [], [], [], []
         for s in specs:
@@ -888,12 +944,22 @@ def run(chk):
         chk.oblige("tie A: registry regenerated from the source", "today", False, str(e))
         return
     tie_a(chk, reg, sigs, rf)
+    try:
+        aliases = c07_registry.gw_aliases()
+    except Declined as e:
+        aliases = {}
+        chk.translator["gw_aliases"] = f"declined: {e}"
+    bad_alias = [f"{k} -> {v[0]}" for k, v in aliases.items()
+                 if v[0] not in reg["default_gw"] and v[0] not in reg["default_reparameterisations"]]
+    chk.oblige("tie A: every GWFlowProposal alias points to a registered (hence classified) name", "today",
+               not bad_alias, "; ".join(bad_alias))
     cfgs, unclassified = gen_configs(chk, reg)
     chk.oblige("tie A: every registered name has a model instance (class known to the model)", "today",
                not unclassified, "unclassified: " + "; ".join(unclassified))
     for c in cfgs:
         c["_registry"] = reg["default_reparameterisations"]
         c["_registry_gw"] = dict(reg["default_gw"], **reg["default_reparameterisations"])
+        c["_aliases"] = aliases
     res = run_child(chk, cfgs)
     if res is None:
         return
@@ -927,6 +993,38 @@ def tie_a(chk, reg, sigs, rf):
         bad.append("default_gw no longer includes default_reparameterisations")
     chk.oblige("tie A: registry / constructor keywords / rescaling_functions regenerated from the source are all "
                "classified by the model", "today", not bad, "; ".join(bad))
+    # the same skeleton through the proven-sound Coq checker (today lemma + instantiated soundness theorem)
+    def kwv(v):
+        if v is True:
+            return "KVtrue"
+        if v is False:
+            return "KVfalse"
+        if v is None:
+            return "KVnone"
+        if isinstance(v, str):
+            return f"(KVstr {common.cStr(v)})"
+        if isinstance(v, (int, float)):
+            return "KVnum"
+        if isinstance(v, (list, tuple)):
+            return "KVlist"
+        if isinstance(v, dict):
+            return "KVdict"
+        return "KVother"
+
+    entries = []
+    for table in ("default_reparameterisations", "default_gw"):
+        for name, (cls, kw) in reg[table].items():
+            kws = cL(f"({common.cStr(k)}, {kwv(v)})" for k, v in kw.items())
+            entries.append(f"{{| re_name := {common.cStr(table + ':' + name)}; re_class := {common.cStr(cls)}; re_kw := {kws} |}}")
+    txt = (common.COQ_HEADER + "From NessaiV Require Import Lib.C07_Interval Model.C07_Maps Proofs.C07_Maps_proofs.\n"
+           f"Definition registry_now : list rentry := {cL(entries)}.\n"
+           "Eval vm_compute in (unclassified_names registry_now).\n"
+           "Lemma today : forallb classified registry_now = true.\nProof. vm_compute. reflexivity. Qed.\n"
+           "Lemma today_property : List.Forall (fun e => exists k, classify e = Some k /\\ kind_ok k) registry_now.\n"
+           "Proof. exact (registry_sound registry_now today). Qed.\n")
+    ok, evals, err = chk.coq_run("today_registry", txt)
+    chk.oblige(f"today: classified registry_now = true for the {len(entries)} regenerated registry entries + instantiated "
+               "soundness theorem (C07_registry_sound)", "today", ok, (evals[0] if evals else "") + " " + err)
     chk.notes.append("registry sizes: " + ", ".join(f"{k}={len(v)}" for k, v in reg.items() if isinstance(v, dict)))
 
 
@@ -957,7 +1055,7 @@ def decide(chk, cfgs, res):
             continue
         obs, rowids = observations(c, r, specs)
         rowmap[idx] = rowids
-        chk.count("rows-decided-by-direct-predicate-only(angle wrap region)", r["n_out"] - len(obs))
+        chk.count("rows-not-in-correspondence(singular radius / pole / angle-wrap region)", r["n_out"] - len(obs))
         items.append((idx, cL(terms), obs, prime_bound_evals(c, r)))
         n_points += len(obs)
     results, errors, prime_results = run_coq_batches(chk, items)
